@@ -456,7 +456,7 @@ class SpecGen:
             key, pk, dk = self.atom()
             if form == 'SUMIFC':
                 if rnd.random() < 0.5:
-                    return f'SUMIF({txt},">"&{key})', prec + pk, dk
+                    return f'COUNTIF({txt},">"&{key})', prec + pk, dk
                 # (a blank criteria cell makes pycel's criteria parser raise: C15, not claimed)
                 return f'COUNTIF({txt},{key}&"")', prec + pk, dk
             if form in ('SUMIF3', 'SUMIF1'):
